@@ -1469,7 +1469,13 @@ func oneRequest(k *vlib.Case, rt *router, real http.Handler, all, list []recSpec
 		if limit > 0 && len(full) >= limit {
 			needed = src[limit-1] + 1
 		}
-		c.Max("max_delegate_reads_beyond_needed", int64(next-needed))
+		c.Count("delegate_iterators_observed", 1)
+		switch {
+		case next <= needed:
+			c.Count("delegate_iterators_read_exactly_as_needed", 1)
+		case next == needed+1:
+			c.Count("delegate_iterators_read_one_ahead", 1)
+		}
 		if next > needed+1 {
 			k.Fail("server/delegate-over-read/"+wantMode, where+": delegate iterator consumed lazily (needed+1)", fmt.Sprintf("<= %d", needed+1), fmt.Sprint(next))
 		}
@@ -1766,7 +1772,7 @@ func run(c *vlib.Ctx) {
 	initPools()
 	fr = newFront()
 	defer fr.srv.Close()
-	c.Cases("filters", c.N(300, 6000), filterCase(false))
-	c.Cases("case", c.N(60, 1200), filterCase(true))
-	c.Cases("ipns", c.N(80, 1500), ipnsCase)
+	c.Cases("filters", c.N(300, 9000), filterCase(false))
+	c.Cases("case", c.N(60, 1500), filterCase(true))
+	c.Cases("ipns", c.N(80, 2000), ipnsCase)
 }
